@@ -88,7 +88,7 @@ template <int K>
 struct C03
 {
     using T = KT<K>;
-    static void check(const typename T::V& v, Ctx& ctx)
+    static void check(const typename T::V& v, Ctx& ctx, uint64_t poison = 0)
     {
         std::string kn = ref::kind_name(K);
         ctx.label("kind=" + kn);
@@ -109,6 +109,27 @@ struct C03
             return;  // rejection with an exception is allowed
         }
         ctx.label(kn + ":encoded");
+        // Codecs are used one call after another on the same thread: one time in four a damaged copy of this very blob (cut short, one
+        // byte altered, or a wrong length prefix) is given to the decoder first and its verdict ignored - the decode of the intact blob
+        // that follows must not be affected by whatever the rejected call left behind.
+        if (poison != 0 && !blob.empty())
+        {
+            LibBytes bad = blob;
+            switch (poison % 3)
+            {
+                case 0: bad.resize(static_cast<size_t>((poison / 3) % blob.size())); break;
+                case 1: bad[static_cast<size_t>((poison / 3) % blob.size())] ^= static_cast<std::byte>(0x5a); break;
+                default: bad[static_cast<size_t>((poison / 3) % std::min<size_t>(4, blob.size()))] ^= static_cast<std::byte>(0x01); break;
+            }
+            try
+            {
+                (void)T::dec(bad);
+            }
+            catch (const std::exception&)
+            {
+            }
+            ctx.label("after-rejected-decode");
+        }
         typename T::V back;
         try
         {
@@ -126,7 +147,8 @@ struct C03
         GenOpts o;
         o.whole_domain = true;
         auto v = T::gen(s, ctx, o);
-        check(v, ctx);
+        uint64_t poison = s.below(4) == 0 ? 1 + s.raw() % 1000003 : 0;
+        check(v, ctx, poison);
     }
 };
 static void prop_c03(const Case& c, Ctx& ctx)
